@@ -99,10 +99,18 @@ def coord? : Sexp → Option Coord
     | .error _ => none
   | _ => none
 
-/-- attribute descriptions: `(pixel ax)`, `(stored v…)`, `(lin a b inner)` = `a*x+b`,
+def optNat? : Sexp → Option (Option Nat)
+  | .atom "N" => some none
+  | e => e.toNat?.map some
+
+/-- index tuples of a reduced dataset / axis links of a second dataset: naturals and `N`. -/
+def indices? (e : Sexp) : Option (List (Option Nat)) := do (← e.toList?).mapM optNat?
+
+/-- attribute descriptions: `(pixelof (links…) k)` = pixel id `k` of a pixel-linked dataset, `(pixel ax)`, `(stored v…)`, `(lin a b inner)` = `a*x+b`,
 `(add x y)`, `(mul x y)`, `(linked inner)`, `(world coord ax)`. -/
 partial def attr? : Sexp → Option Attr
   | .list [.atom "pixel", ax] => ax.toNat?.map .pixel
+  | .list [.atom "pixelof", links, k] => do some (.pixelOf (← indices? links) (← k.toNat?))
   | .list [.atom "stored", vals] => (sexpToRats? vals).map .stored
   | .list [.atom "lin", a, b, inner] => do
     let a' ← sexpToRat? a
@@ -165,10 +173,25 @@ def box? : Sexp → Option (List Nat → Bool)
       (xs.zip ps).all fun q => decide (((q.1 : Nat) : Rat) > q.2.1) && decide (((q.1 : Nat) : Rat) < q.2.2)
   | _ => none
 
+/-- `(boxq (lo hi)…)`: open box on a tuple of rationals (`RectangularROI`, a 1-d range, a
+`Projected3dROI` with the identity projection). -/
+def boxq? : Sexp → Option (List Rat → Bool)
+  | .list (.atom "boxq" :: prs) => do
+    let ps ← prs.mapM fun p => match p with
+      | .list [lo, hi] => do some ((← sexpToRat? lo), (← sexpToRat? hi))
+      | _ => none
+    some fun xs => xs.length == ps.length &&
+      (xs.zip ps).all fun q => decide (q.1 > q.2.1) && decide (q.1 < q.2.2)
+  | _ => none
+
 partial def state? (sh : List Nat) : Sexp → Option State
   | .list [.atom "base"] => some .base
   | .list [.atom "pred", a, p] => do some (.pred (← attr? a) (← pred1? p))
   | .list [.atom "pred2", a, b, p] => do some (.pred2 (← attr? a) (← attr? b) (← pred2? p))
+  | .list [.atom "predn", as, p] => do some (.predN (← (← as.toList?).mapM attr?) (← boxq? p))
+  | .list (.atom "sliceof" :: order :: its) => do some (.sliceOf (← order.toNats?) (← its.mapM viewItem?))
+  | .list [.atom "maskof", links, ks, msh, bits] => do
+    some (.maskOf (← indices? links) (← ks.toNats?) (← msh.toNats?) (← bits.toBools?))
   | .list [.atom "table", bits] => do
     let t ← bits.toBools?
     some (.table fun idx => t.getD (flat sh idx) false)
@@ -192,12 +215,6 @@ partial def state? (sh : List Nat) : Sexp → Option State
 def stateKind : Sexp → String
   | .list (.atom k :: _) => k
   | _ => "?"
-
-def optNat? : Sexp → Option (Option Nat)
-  | .atom "N" => some none
-  | e => e.toNat?.map some
-
-def indices? (e : Sexp) : Option (List (Option Nat)) := do (← e.toList?).mapM optNat?
 
 /-! ### families -/
 
